@@ -428,3 +428,5 @@ func clip(s string, n int) string {
 	}
 	return s[:n] + "…"
 }
+
+func readFile(path string) ([]byte, error) { return os.ReadFile(path) }
